@@ -158,7 +158,8 @@ def check_case(ctx, case):
     layout = None
     if case['chunks'] is not None:
         ntrail = case.get('trailer_lines') or 0
-        wire, layout = encode_chunked(body, case['chunks'], [{'upper': bool((S + B) % 2), 'zeros': (S + B) % 3}], trailers=['X-T%d: v' % j for j in range(ntrail)])        # (hex letters in either case)
+        wire, layout = encode_chunked(body, case['chunks'], [{'upper': bool((S + B) % 2), 'zeros': (S + B) % 3}], (['x' * case['long_ext']] if case.get('long_ext') else None),
+                                      trailers=['X-T%d: v' % j for j in range(ntrail)])        # (hex letters in either case; optionally a chunk extension of long_ext characters)
         if case.get('neg_line'):
             # a size line with a minus sign (an "empty chunk" that int(x, 16) would read as a negative number) in front of the j-th chunk
             j, val = case['neg_line']
@@ -169,7 +170,7 @@ def check_case(ctx, case):
             layout = [(k_, s_ + (len(ins) if s_ >= at else 0), e_ + (len(ins) if s_ >= at else 0)) for k_, s_, e_ in layout]
         last_end = [e_ for k_, s_, e_ in layout if k_ == 'last'][0]
         longest = max(e - s for k, s, e in layout if k in ('size', 'last'))
-        if longest > B:
+        if longest > B and not case.get('long_ext'):
             ctx.exclude('size_line_longer_than_buffer')
             return
         headers['Transfer-Encoding'] = case.get('te') or 'chunked'        # (coding names are case-insensitive; the value is a list that ends with chunked)
@@ -206,6 +207,18 @@ def check_case(ctx, case):
         ctx.nontrivial(case)
         return
     r = call_app(app, env)
+    if case.get('long_ext') and layout:
+        # a chunk header line longer than the buffer: refused, after reading at most two buffers of it (its extension is not a way around the limits)
+        first = [(s_, e_) for k_, s_, e_ in layout if k_ in ('size', 'last')][0]
+        if first[1] - first[0] > B:
+            if not (400 <= (r.code or 0) < 500):
+                raise CheckFailure(f'chunk header line of {first[1] - first[0]} bytes (extension of {case["long_ext"]}) with max_memfile_size={B}: answered {r.status!r}')
+            if stream.pos > first[0] + 2 * B + 4:
+                raise CheckFailure(f'chunk header line of {first[1] - first[0]} bytes (extension of {case["long_ext"]}) with max_memfile_size={B}, max_body_size={M}: {stream.pos} bytes were pulled '
+                                   f'from the stream before the refusal')
+            ctx.count('over_long_chunk_header_refused')
+            ctx.nontrivial(case)
+            return
     what = f'kind={kind} S={S} body={total}B M={M} B={B} framing={"chunked " + str(case["chunks"][:4]) if layout else "length"}'
     if r.escaped is not None:
         raise CheckFailure(f'{what}: exception escaped {fmt_exc(r.escaped)}')
@@ -406,6 +419,12 @@ def run(ctx):
             for S in (10, 100, 101, 5000):
                 ctx.guarded(check_case, {'kind': 'raw', 'S': S, 'M': 100, 'B': 16, 'nparts': 1, 'chunks': [33], 'pattern': [], 'te': te})
         ctx.count('media_type_and_coding_spelling_grid')
+        for ext in (10, 1000, 200000):
+            for B in (16, 64):
+                for M in (None, 64):
+                    for S in (10, 500):
+                        ctx.guarded(check_case, {'kind': 'raw', 'S': S, 'M': M, 'B': B, 'nparts': 1, 'chunks': [33], 'pattern': [], 'long_ext': ext})
+        ctx.count('long_chunk_extension_grid')
         for S in (9, 65, 300):
             for chunks in (None, [7]):
                 ctx.guarded(check_case, {'kind': 'raw', 'S': S, 'M': None, 'B': 8, 'nparts': 1, 'chunks': chunks, 'pattern': [], 'tempdir_broken': True})
